@@ -90,6 +90,8 @@ func runC13(p *Prog, r *Report) {
 			}
 		}
 	}
+	// R3 (addition): the error record is not lost in the logger: no sampling (C08.R6 re-evaluated)
+	checkErrorLogger(p, r, "C13.R3")
 	// R4: import the builder and worker contracts
 	sub := NewReport("C13", r.Tier)
 	for _, fn := range p.LoopFuncsCalling(func(c *ssa.CallCommon) bool { return IsCallTo(c, fnFill) }) {
